@@ -163,8 +163,7 @@ def r_solve_program(ctx, only):
     problems = {}          # clause -> first message
     n = 0
     ref_trace = {}
-    for cfg in _configs():
-        n += 1
+    def prepare(cfg):
         run = _Run(root, wname, cfg)
         m = run.model
         env = {"self.list_of_performance_metrics": m["metrics"], "self.list_of_constraints": m["cons"], "self.list_of_psd": m["psd"],
@@ -178,6 +177,12 @@ def r_solve_program(ctx, only):
             env[p0] = vals[r0]
         it = IndexInterp(env, on_call=run.on_call)
         it.on_compare = run.on_compare
+        return run, it
+
+    for cfg in _configs():
+        n += 1
+        run, it = prepare(cfg)
+        m = run.model
         label = "heuristic=%s mode=%s first optimum=%s verbose=%s" % (cfg["heur"], cfg["mode"], "finite" if cfg["value"] else "None", cfg["verbose"])
         try:
             ret = it.run(root.body)
@@ -303,6 +308,9 @@ def r_solve_program(ctx, only):
             fail("return", "mode 'dual' returns `%r`, not the result of the reconstruction" % (ret,))
         if cfg["mode"] == "primal" and not (isinstance(ret, tuple) and len(ret) == 2 and ret[0] == "value"):
             fail("return", "mode 'primal' returns `%r`, not the solver value" % (ret,))
+        elif cfg["mode"] == "primal" and ret != ("value", nsolve):
+            fail("return", "mode 'primal' returns the optimum of solve #%s while the published instance (Gram matrix, function values) is the solution of "
+                 "solve #%d: the value returned is not the objective of the instance returned" % (ret[1], nsolve))
         # ---- verbosity changes nothing
         key = (cfg["heur"], cfg["mode"], bool(cfg["value"]))
         def norm(v):
@@ -317,6 +325,23 @@ def r_solve_program(ctx, only):
             diff = [(a, b) for a, b in zip(ref_trace[key], sig) if a != b][:1] or [("length %d" % len(ref_trace[key]), "length %d" % len(sig))]
             fail("verbosity", "the wrapper is driven differently with verbose=%s than with verbose=0: %s" % (cfg["verbose"], diff))
         ref_trace.setdefault(key, sig)
+    # ---- option strings outside the documented sets are rejected, whatever else they look like
+    if "options" in only:
+        probes = [("heur", h) for h in ("logdet", "logdetx", "logdet1.5", "logdet2 steps", "logdet3trace", "xlogdet2", "tracex", "Trace", " logdet2")] + \
+                 [("mode", mo) for mo in ("Dual", "dual ", "both", "", "primal_dual")]
+        for what, bad in probes:
+            cfg = {"heur": bad if what == "heur" else None, "mode": bad if what == "mode" else "dual", "value": ("value", 1), "verbose": 0}
+            run, it = prepare(cfg)
+            try:
+                ret = it.run(root.body)
+            except AnalysisError as e:
+                if "the index program raises" not in str(e):
+                    ctx.notes.append("R-SOLVEPROG option probe %r skipped: %s" % (bad, e))
+                continue
+            n += 1
+            problems.setdefault("options", "%s = %r is accepted (the solve goes through and returns `%r`); the documented values are %s" % (
+                "dimension_reduction_heuristic" if what == "heur" else "return_primal_or_dual", bad, ret,
+                "None, 'trace' and 'logdet' followed by an integer" if what == "heur" else "'dual' and 'primal'"))
     clauses = [("interpretable", "the solve root is within the interpreted fragment"),
                ("drain", "every declared object is sent exactly once, after regeneration, metrics as objective <= metric"),
                ("track", "the tracking lists hold exactly what was sent, in order"),
@@ -326,7 +351,8 @@ def r_solve_program(ctx, only):
                ("heur", "heuristic calls: (first optimum, tolerance), identity / regularised inverse, one solve per step"),
                ("primal", "the published instance is the last solution read from the wrapper"),
                ("return", "dual mode returns the reconstruction, primal mode the solver value"),
-               ("verbosity", "the calls do not depend on the verbosity")]
+               ("verbosity", "the calls do not depend on the verbosity"),
+               ("options", "option strings outside the documented sets raise")]
     for c0, okmsg in clauses:
         if c0 == "interpretable" and c0 not in problems:
             continue
